@@ -158,9 +158,11 @@ structure Inv (pre : List StreamMeta) (sys : Sys) : Prop where
   procLoom : ∀ p ∈ sys.procs, p.loom ∈ sys.looms
   thrLoom : ∀ t ∈ sys.threads, t.loom ∈ sys.looms
   thrProc : ∀ t ∈ sys.threads, (t.loom, t.pid) ∈ sys.procs.map pkey
+  loomSrc : ∀ n ∈ sys.looms, ∃ t ∈ sys.threads, t.loom = n
+  procSrc : ∀ k ∈ sys.procs.map pkey, ∃ t ∈ sys.threads, (t.loom, t.pid) = k
 
 theorem Inv.nil : Inv [] Sys.empty := by
-  refine ⟨List.nodup_nil, ?_, rfl, rfl, List.nodup_nil, ?_, ProcInv.nil, CpuInv.nil, ?_, ?_, ?_, ?_, ?_⟩
+  refine ⟨List.nodup_nil, ?_, rfl, rfl, List.nodup_nil, ?_, ProcInv.nil, CpuInv.nil, ?_, ?_, ?_, ?_, ?_, ?_, ?_⟩
   · intro n h; cases h
   · intro s h; cases h
   · intro n h; cases h
@@ -168,6 +170,8 @@ theorem Inv.nil : Inv [] Sys.empty := by
   · intro p h; cases h
   · intro t h; cases h
   · intro t h; cases h
+  · intro n h; cases h
+  · intro k h; cases h
 
 theorem skelOf_snoc (ts : List ThreadPart) (t : ThreadPart) :
     skelOf (ts ++ [t]) = skelStep (skelOf ts) t := by
@@ -305,7 +309,11 @@ theorem step_ok {m : Mode} {pre : List StreamMeta} {sys sys' : Sys} {s : StreamM
           rw [p3]; split
           · assumption
           · exact List.mem_append_right _ (by simp)
-        refine ⟨?_, ?_, ?_, ?_, ?_, ?_, ?_, ?_, ?_, ?_, ?_, ?_, ?_⟩
+        have hnew : (⟨n, s.tp.pid, s.tp.tid, s.tp.hasVersion, s.tp.hasCommit⟩ : ThreadRow) ∈ ts := by
+          rw [t4]; exact List.mem_append_right _ (by simp)
+        have htsub : ∀ t ∈ sys.threads, t ∈ ts := by
+          intro t ht; rw [t4]; exact List.mem_append_left _ ht
+        refine ⟨?_, ?_, ?_, ?_, ?_, ?_, ?_, ?_, ?_, ?_, ?_, ?_, ?_, ?_, ?_⟩
         · rw [l1]; split
           · exact inv.loomsNodup
           · rename_i hm
@@ -370,12 +378,36 @@ theorem step_ok {m : Mode} {pre : List StreamMeta} {sys sys' : Sys} {s : StreamM
           rcases List.mem_append.1 ht with ht | ht
           · exact hpsub _ (inv.thrProc t ht)
           · simp only [List.mem_singleton] at ht; subst ht; exact hpn
+        · intro x hx
+          rw [l1] at hx
+          have hx' : x ∈ sys.looms ∨ x = n := by
+            split at hx
+            · exact Or.inl hx
+            · rcases List.mem_append.1 hx with hx | hx
+              · exact Or.inl hx
+              · exact Or.inr (by simpa using hx)
+          rcases hx' with hx' | hx'
+          · obtain ⟨t, ht, hte⟩ := inv.loomSrc x hx'
+            exact ⟨t, htsub t ht, hte⟩
+          · exact ⟨_, hnew, hx'.symm⟩
+        · intro k hk
+          rw [p3] at hk
+          have hk' : k ∈ sys.procs.map pkey ∨ k = (n, s.tp.pid) := by
+            split at hk
+            · exact Or.inl hk
+            · rcases List.mem_append.1 hk with hk | hk
+              · exact Or.inl hk
+              · exact Or.inr (by simpa using hk)
+          rcases hk' with hk' | hk'
+          · obtain ⟨t, ht, hte⟩ := inv.procSrc k hk'
+            exact ⟨t, htsub t ht, hte⟩
+          · exact ⟨_, hnew, hk'.symm⟩
     · rw [step_other hpart hthr] at h
       cases h
       have hne : s.tp.part ≠ some sThread := by rw [hpart]; simpa using hthr
       obtain ⟨f1, f2, f3, f4⟩ := factsOf_other hne
       refine ⟨inv.loomsNodup, inv.loomsOK, ?_, ?_, ?_, ?_, ?_, ?_, ?_, inv.cpuLoom, inv.procLoom,
-        inv.thrLoom, inv.thrProc⟩
+        inv.thrLoom, inv.thrProc, inv.loomSrc, inv.procSrc⟩
       · rw [List.map_append, List.map_cons, List.map_nil, skelOf_snoc, ← inv.skelEq]
         simp [skelStep, hne]
       · rw [thrKeys_snoc, f4, List.append_nil]; exact inv.thrRows
